@@ -176,6 +176,8 @@ def build(only_sizes=None):
             sz = abs(sz)
             uname = "%s_s%d" % (name, sz)
             u = {"name": uname, "harness": "h_" + name, "enforce": enforce, "replace": replace, "defines": ["-DVERIF_ITEM_SIZE=%d" % sz]}
+            if sz in LARGE:
+                u["defines"].append("-DVERIF_AL_P_ONLY")
             u.update(extra)
             if thorough_only:
                 u["only_tier"] = "thorough"
@@ -184,12 +186,13 @@ def build(only_sizes=None):
             if uname in MUTANTS:
                 u["mutants"] = MUTANTS[uname]
             units.append(u)
-    for sz in (only_sizes or [3, 24]):
+    for sz in (only_sizes or SMALL):
         for l in LEMMAS:
             units.append({"name": "lemma_%s_s%d" % (l, sz), "harness": "h_lemma_" + l, "mode": "complete", "replace": [], "covers": [],
                           "defines": ["-DVERIF_ITEM_SIZE=%d" % sz], "min_obligations": 1, "timeout": 600})
-    units.append({"name": "inv_forms_s3", "harness": "h_inv_forms", "mode": "complete", "replace": [], "covers": [], "defines": ["-DVERIF_ITEM_SIZE=3"], "min_obligations": 1, "timeout": 600})
-    units.append({"name": "inv_forms_s24", "harness": "h_inv_forms", "mode": "complete", "replace": [], "covers": [], "defines": ["-DVERIF_ITEM_SIZE=24"], "min_obligations": 1, "timeout": 600})
+    for sz in (only_sizes or SMALL):
+        units.append({"name": "inv_forms_s%d" % sz, "harness": "h_inv_forms", "mode": "complete", "replace": [], "covers": [],
+                      "defines": ["-DVERIF_ITEM_SIZE=%d" % sz], "min_obligations": 1, "timeout": 600})
     for name, covers, k, nl in LLU:
         u = {"name": "ll_" + name, "src": "linked_list.c", "harness": "h_" + name, "mode": "complete", "replace": [], "covers": covers,
              "unwind": 12, "defines": ["-DLL_K=%d" % k, "-DLL_NL=%d" % nl], "min_obligations": 30, "timeout": 900}
